@@ -274,7 +274,9 @@ def _aggregate(ck, p, byk):
     bad, unknown = [], []
     for l, lst in ops.items():
         for m, bi, t in lst:
-            if m in VEC_BAD:
+            if inst_of(t) == "harper_core::remove_overlaps":
+                ck.refuted(rule, "LintGroup::lint:remove_overlaps", f.loc(t["ln"]), "the lints of several rules are put through remove_overlaps inside the group (vector `%s`): a lint of one rule is dropped because a lint of another rule covers it, so switching that other rule off makes it appear - toggling one rule changes another rule's output" % named.get(l, "_%d" % l))
+            elif m in VEC_BAD:
                 bad.append((l, m, t))
             elif m not in VEC_OK and not m.startswith("{closure"):
                 unknown.append((l, m, t))
